@@ -6,7 +6,20 @@ open Gossamer Gossamer.C02
    output: `<model observables joined by ;>` then, when the ordered-map specification gives
    something else, TAB `spec=<spec observables>` and TAB `kf=<tag>` if the first diverging
    op lies in the region of a known finding. -/
+/-- Pinned facts about slice ownership of the Go API (`probe <name>` corpus lines).  They are not
+    part of the ordered-map property (no production caller writes into these slices: every host
+    function copies before `Put` and copies `Get` results into Wasm memory); a change of any of
+    them shows up as a disagreement on the probe line. -/
+def probe : String → String
+  | "put-retains-value" => "true"        -- `StorageValue: value`: Put takes ownership of `value`
+  | "put-retains-key" => "false"         -- the key is converted to a fresh nibble slice
+  | "get-returns-internal" => "true"     -- Get returns `leaf.StorageValue` itself
+  | "get-write-stale-hash" => "cached=false fresh-differs=false"
+  | "entries-returns-internal" => "true"
+  | _ => "bad-op"
+
 def step (line : String) : String :=
+  if line.startsWith "probe " then probe ((line.drop 6).toString) else
   match parseLine line with
   | none => "bad-op"
   | some (_, ops) =>
